@@ -64,7 +64,17 @@ Inductive fexpr :=
 | FThr (k : nat)             (* filter::severity_filter<Record, k>  (its threshold is a static member) *)
 | FAnd (a b : fexpr)         (* filter::and_filter<A, B> *)
 | FOr (a b : fexpr)          (* filter::or_filter<A, B> *)
-| FNot (a : fexpr).          (* filter::not_filter<A> *)
+| FNot (a : fexpr)           (* filter::not_filter<A> *)
+| FTag (accept : bool) (t : str).   (* a user-written filter that reads the record's TAG: accept = true: passes exactly the records
+                                       whose tag is t; accept = false: rejects exactly those ("mute tag t") *)
+
+(* std::string == on the tag text *)
+Fixpoint str_eqb (a b : str) : bool :=
+  match a, b with
+  | [], [] => true
+  | x :: a', y :: b' => beq x y && str_eqb a' b'
+  | _, _ => false
+  end.
 
 (* severity_filter<Record,k>::sev is a static data member of a class template over (Record, k): one threshold per
    record type AND index.  ktable: the thresholds of one record type, by index; thresholds: by record type.
@@ -89,6 +99,7 @@ Fixpoint filt (th : ktable) (f : fexpr) (r : record) : bool :=
   | FOr a b => filt th a r || filt th b r
   | FNot (FNot g) => filt th g r
   | FNot g => negb (filt th g r)
+  | FTag accept t => if accept then str_eqb (r_tag r) t else negb (str_eqb (r_tag r) t)
   end.
 
 (* ---------------------------------------------------------------- what is streamed *)
@@ -239,6 +250,7 @@ Definition ss_construct (th : thresholds) (lg : logger) (sv : sev) (tag : option
      attribute ignores the tag *)
   let r0 := if lg_tagged lg then set_tag new_record tag else new_record in
   let r := set_severity r0 sv in
+  (* the filter is asked about the COMPLETE record: tag and severity are both set before will_log *)
   if filt (th (lg_rec lg)) (lg_filter lg) r         (* logger::will_log( *r ): the filters of THIS record type *)
   then mkSS (Some r) (Some []) false                (* s.reset(new std::stringstream()) *)
   else mkSS None None false.                        (* r.reset() *)
